@@ -9,6 +9,7 @@ import (
 	"strings"
 	"sync"
 	"testing"
+	"testing/synctest"
 	"time"
 
 	goat "github.com/avos-io/goat"
@@ -193,8 +194,8 @@ func TestC04Sys(t *testing.T) {
 	}
 
 	for si, sc := range scs {
-		if !anyWanted(idx, 3) {
-			idx += 3
+		if !anyWanted(idx, 5) {
+			idx += 5
 			continue
 		}
 		em.Marker("begin", idx)
@@ -267,8 +268,8 @@ func TestC04Sys(t *testing.T) {
 					return streamer(metadata.AppendToOutgoingContext(ctx, sc.icPairs...), desc, cc, method, opts...)
 				}))
 		}
-		var gotH, gotT metadata.MD
-		var gotHok, gotTok bool
+		var gotH, gotT, apiH, apiT metadata.MD
+		var gotHok, gotTok, apiPanicked, apiCalled bool
 		var cw, sw []*Rpc
 		bubble(t, func(t *testing.T) {
 			l := NewLink(false)
@@ -288,8 +289,28 @@ func TestC04Sys(t *testing.T) {
 				defer c2()
 			}
 			if !sc.k.stream {
+				// what the API offers a unary caller: grpc.Header / grpc.Trailer call options
+				func() {
+					defer func() {
+						if p := recover(); p != nil {
+							apiPanicked = true
+						}
+					}()
+					var out wrapperspb.BytesValue
+					if cc.Invoke(ctx, sc.k.path, bv([]byte("q")), &out, grpc.Header(&apiH), grpc.Trailer(&apiT)) == nil || true {
+						apiCalled = true
+					}
+				}()
+				synctest.Wait()
+				incoming, accH, accT = nil, nil, nil
+				ih.mu.Lock()
+				ih.md, ih.n = nil, 0
+				ih.mu.Unlock()
+				nBefore := len(l.S.WrittenCopy())
+				nBeforeC := len(l.C.WrittenCopy())
 				var out wrapperspb.BytesValue
 				cc.Invoke(ctx, sc.k.path, bv([]byte("q")), &out)
+				cw, sw = l.C.WrittenCopy()[nBeforeC:], l.S.WrittenCopy()[nBefore:]
 			} else {
 				cs, err := cc.NewStream(ctx, sc.k.desc, sc.k.path)
 				if err != nil {
@@ -309,7 +330,9 @@ func TestC04Sys(t *testing.T) {
 				}
 				gotT, gotTok = cs.Trailer(), true
 			}
-			cw, sw = l.C.WrittenCopy(), l.S.WrittenCopy()
+			if sc.k.stream {
+				cw, sw = l.C.WrittenCopy(), l.S.WrittenCopy()
+			}
 			cancel()
 			stQuiesce(l, ret)
 		})
@@ -407,6 +430,26 @@ func TestC04Sys(t *testing.T) {
 				Coq: fmt.Sprintf("CSysResp 1 %s %s %s false %s", coqMDs(accT), orderTerms(trlWire), coqKVs(trlWire), coqOpt(gotTok, coqMD(gotT)))})
 		}
 		idx++
+		// ---- unary: what the caller's API delivers (finding unary-response-metadata-no-accessor)
+		if !sc.k.stream {
+			for which, wl := range [][]*goatorepo.KeyValue{hdrWire, trlWire} {
+				if want(idx + which) {
+					api := apiH
+					if which == 1 {
+						api = apiT
+					}
+					atags := []string{"sys:kind=unary", fmt.Sprintf("api:panicked=%v", apiPanicked), fmt.Sprintf("api:wire-has-metadata=%v", len(wl) > 0), fmt.Sprintf("api:which=%d", which)}
+					if len(wl) > 0 {
+						atags = append(atags, "sig:unary-response-metadata-no-accessor")
+					}
+					em.Emit(Rec{Idx: idx + which, Kind: "sys-unary-api", Desc: map[string]any{"i": si, "which": which, "ops": opNames, "fail": sc.fail},
+						Obs:  map[string]any{"panicked": apiPanicked, "called": apiCalled, "api": api},
+						Tags: atags,
+						Coq: fmt.Sprintf("CSysUnaryApi %d %s %s %s", which, coqKVs(wl), coqBool(apiPanicked), coqOpt(api != nil && !apiPanicked, coqMD(api)))})
+				}
+			}
+		}
+		idx += 2
 		em.Marker("end", first)
 	}
 }
